@@ -510,14 +510,14 @@ func c10HistRun(t *testing.T, p c10HistPlan) (res vfResult) {
 				}
 			case "restart":
 				gen++
-				b, rerr := os.ReadFile(e.r.statePath)
+				b, rerr := os.ReadFile(vfPathOf(e.r))
 				if rerr != nil {
 					res.failf("harness", "read state: %v", rerr)
 					return
 				}
 				np := w.statePath(fmt.Sprintf("r%d", gen))
 				os.WriteFile(np, b, 0o644)
-				nr := NewRouter(np)
+				nr := vfNewRouter(np)
 				w.adopt(nr)
 				if rerr := nr.RestoreLastSavedState(); rerr != nil {
 					res.failf("restore-failed", "%s: %v", ctx, rerr)
